@@ -141,3 +141,14 @@ package orefafs
 //@ func (*node).addChild
 //@   requires wheld(nd.mu)
 //@   modifies nd.children, nd.children[*]
+
+//@ func (*OrefaFS).createNode
+//@   requires wheld(vfs.mu) && parent != nil && vfs.lastId != nil
+//@ func (*node).remove
+//@   requires wheld(nd.mu)
+//@   modifies nd.children, nd.nlink, nd.data
+
+//@ func (*node).dirNames
+//@   requires held(nd.mu)
+//@ func (*node).dirEntries
+//@   requires held(nd.mu)
